@@ -207,9 +207,9 @@ func runL3(server bool, ops []string, emit func(string)) {
 		reply := func(c, id, kind string) {
 			var fr string
 			if kind == "result" {
-				fr = fmt.Sprintf(`[3,"%s",{"status":"Accepted","data":"%s"}]`, id, id)
+				fr = fmt.Sprintf(`[3,"%s",{"status":"Accepted","data":"%s"}]`, wireID(id), wireID(id))
 			} else {
-				fr = fmt.Sprintf(`[4,"%s","GenericError","some error",{}]`, id)
+				fr = fmt.Sprintf(`[4,"%s","GenericError","some error",{}]`, wireID(id))
 			}
 			done := make(chan struct{})
 			go func() { _ = e.deliver(c, []byte(fr)); close(done) }()
